@@ -83,12 +83,12 @@ def r1(ctx):
             rep.check(not any(o.startswith("Some:") or o == "None" for o in outs), "undefined-opcode-rejected:%#04x" % op, "undefined opcode decodes to Err", "undefined opcode %#04x is decoded to %s" % (op, sorted(outs))) if op in (0x1B, 0x1F, 0x25, 0xFF) else None
     for op, (variant, hmeth, smeth) in sorted(ROWS.items()):
         somes, t = decoded_variant(ctx, op)
-        rep.check(somes == [variant], "decode:%#04x" % op, "%#04x decodes to %s" % (op, variant), "opcode %#04x decodes to %s, the protocol says %s" % (op, somes, variant), f.one(CODEC + "::parse_request").loc())
+        rep.check(somes == [variant], "decode:%#04x" % op, "%#04x decodes to %s" % (op, variant), "opcode %#04x decodes to %s, the protocol says %s" % (op, somes, variant), safe_loc(f, CODEC + "::parse_request"))
         hm = handler_method_of(ctx, variant)
-        rep.check(hm == {hmeth}, "handle:%s" % variant, "%s handled by BinaryHandler::%s" % (variant, hmeth), "request variant %s is handled by %s, expected BinaryHandler::%s" % (variant, sorted(hm or []), hmeth), f.one(HANDLER + "::handle_request").loc())
+        rep.check(hm == {hmeth}, "handle:%s" % variant, "%s handled by BinaryHandler::%s" % (variant, hmeth), "request variant %s is handled by %s, expected BinaryHandler::%s" % (variant, sorted(hm or []), hmeth), safe_loc(f, HANDLER + "::handle_request"))
         argname = "request" if hmeth == "add_replace" else "append_req"
         sm, _paths = store_method_for_opcode(ctx, hmeth, argname, op)
-        rep.check(sm == {smeth}, "store-method:%#04x" % op, "%#04x -> MemcStore::%s" % (op, smeth), "opcode %#04x reaches MemcStore::%s, the protocol says %s" % (op, sorted(sm), smeth), f.one(HANDLER + "::" + hmeth).loc())
+        rep.check(sm == {smeth}, "store-method:%#04x" % op, "%#04x -> MemcStore::%s" % (op, smeth), "opcode %#04x reaches MemcStore::%s, the protocol says %s" % (op, sorted(sm), smeth), safe_loc(f, HANDLER + "::" + hmeth))
         rep.sample({"opcode": "%#04x" % op, "variant": somes, "handler": sorted(hm or []), "store": sorted(sm)})
     return rep
 
@@ -232,7 +232,7 @@ def r4(ctx):
                 v_ok = isinstance(val, tuple) and val[0] == "bufslice" and val[2] == kl and F(HF, "body_length") in atoms(val[3]) and kl in atoms(val[3])
                 ok = k_ok and v_ok and key[1] == val[1]
                 why = "key=%s value=%s" % (short(key, 100), short(val, 140))
-        rep.check(ok, "layout:%#04x" % op, "key at body offset 0 (key_length bytes), value after it", "append/prepend frame %#04x is sliced as %s" % (op, why), f.one(CODEC + "::parse_append_prepend_request").loc())
+        rep.check(ok, "layout:%#04x" % op, "key at body offset 0 (key_length bytes), value after it", "append/prepend frame %#04x is sliced as %s" % (op, why), safe_loc(f, CODEC + "::parse_append_prepend_request"))
     # handler: Record::new(value <- req.value, cas <- req.header.cas), key <- req.key
     b = f.one(HANDLER + "::append_prepend")
     for op in (0x0E, 0x0F):
